@@ -228,6 +228,10 @@ class Engine:
         # preconditions
         st.old = st.snapshot()
         st.entry_clock = st.clock
+        # ghost parameters: universally quantified specification-only values (pre-state objects of the declared type)
+        for j, c in enumerate(u.of('ghost_param')):
+            nm = ast.literal_eval(c.args[0])
+            st.ghost['names'][nm] = self.make_param(it, st, 'g_' + nm, ast.literal_eval(c.args[1]), 30 + j)
         st.spec += 1
         try:
             for c in u.of('let'):
@@ -355,10 +359,14 @@ class Engine:
                     props = ast.literal_eval(c.kw['props']) if 'props' in c.kw else None
                     for k, e in enumerate(exprs):
                         st.cur_line = line
-                        g = it.gtruth(e)
+                        is_lemma = isinstance(e, ast.Call) and isinstance(e.func, ast.Name) and e.func.id == 'lemma'
+                        g = it.gtruth(e.args[0] if is_lemma else e)
                         lab = label if len(exprs) == 1 else '%s/%d' % (label, k + 1)
                         self.flush_side(st, lab)
                         st.oblige(lab, 'post', g, line='ret@%s' % line, props=props, info={'clause_line': c.line})
+                        if is_lemma:
+                            # assert, then assume: later obligations of this path may use the proved fact
+                            st.pc.append(g)
                 # exact raises: on normal return the `when` condition must be false
                 for c in u.of('raises'):
                     if 'when' in c.kw and ('exact' not in c.kw or ast.literal_eval(c.kw['exact'])):
@@ -596,6 +604,9 @@ class Engine:
             for c in uu.of('returns'):
                 T_ = parse_type(ast.literal_eval(c.args[0]))
         ev = VRef(z3.simplify(st.tlen() - 1), 'Event')
+        t_ = st.fresh('tafter', z3.RealSort())
+        st.pc.append(t_ >= st.clock)
+        st.clock = t_
         result = self.fresh_any(st) if T_ is None else self.sym_value(st, T_, 'ret!%d' % next(st.fresh_counter))
         self.apply_callout_assumes(it, st, fn, result, ev)
         return result
@@ -884,6 +895,10 @@ class Engine:
             result = self.fresh_any(st)
         else:
             result = self.sym_value(st, T_.ret, 'cb!%d' % next(st.fresh_counter))
+        # real time passes while the callee runs
+        t_ = st.fresh('tafter', z3.RealSort())
+        st.pc.append(t_ >= st.clock)
+        st.clock = t_
         # ghost: the value the call-out returned (trace[k].ret)
         try:
             field_store(st, 'T:ret', self.T_ANY, ev.t, self.event_arg(it, st, result))
@@ -1115,9 +1130,10 @@ class Engine:
                 return
             except ContinueEx:
                 pass
-            self.assert_invariants(it, invs, od, 'inv_keep', node)
+            # per-iteration postconditions first: their lemma() facts may support the invariant proofs
             if bes:
                 self.assert_invariants(it, bes, od, 'body_post', node)
+            self.assert_invariants(it, invs, od, 'inv_keep', node)
             if decs:
                 st.frames.append(self.spec_frame(st, dict(st.locals)))
                 st.spec += 1
@@ -1146,9 +1162,13 @@ class Engine:
                     if isinstance(e, ast.Constant) and isinstance(e.value, str):
                         label = e.value
                         continue
-                    g = it.gtruth(e)
+                    is_lemma = isinstance(e, ast.Call) and isinstance(e.func, ast.Name) and e.func.id == 'lemma'
+                    g = it.gtruth(e.args[0] if is_lemma else e)
                     self.flush_side(st, 'invariant')
                     st.oblige('%s.%s(loop %d)' % (label or self.unit.name, 'inv', od), kind, g, line=node.lineno, info={'clause_line': c.line, 'expr': ast.unparse(e)[:200]})
+                    if is_lemma:
+                        # assert, then assume: later obligations of this path may use the proved fact
+                        st.pc.append(g)
         finally:
             st.spec -= 1
             st.frames.pop()
@@ -1210,6 +1230,8 @@ class Engine:
                 for e in rest:
                     if isinstance(e, ast.Constant) and isinstance(e.value, str):
                         continue
+                    if isinstance(e, ast.Call) and isinstance(e.func, ast.Name) and e.func.id == 'lemma':
+                        e = e.args[0]
                     st.assume(self.assumed(it, e))
             st.side = []
         finally:
@@ -1246,10 +1268,12 @@ class Engine:
         if isinstance(cur, VRef):
             r = z3.Int(base)
             st.pc.append(z3.And(r > 0))
+            st.ghost.setdefault('lv_refs', []).append(r)
             return VRef(r, cur.cls)
         if isinstance(cur, VList):
             r = z3.Int(base)
             st.pc.append(z3.And(r > 0))
+            st.ghost.setdefault('lv_refs', []).append(r)
             return VList(r, cur.elem)
         if isinstance(cur, VEnum):
             return VEnum(cur.cls, z3.Int(base))
@@ -1816,6 +1840,9 @@ def _havoc_loop(self, it, node, od):
             new = self.fresh_arr(st, 'lp!' + name, arr.sort())
             st.H[name] = st.merged(name, arr, new, nr_entry, tg)
     st.havoc_alloc()
+    # objects held by havocked locals exist: they were allocated before the current allocation pointer
+    for r_ in st.ghost.pop('lv_refs', []):
+        st.pc.append(r_ < st.next_ref)
 
 
 def _guess_sort(self, st, name):
